@@ -17,6 +17,7 @@ mod fixedloc;
 mod cipher;
 mod codec;
 mod grpc;
+mod keepalive;
 mod limiter;
 mod mojang;
 mod conn;
@@ -82,6 +83,9 @@ fn main() {
         "admission" => admission::sweep(seed),
         "shutdown" => admission::shutdown(seed),
         "stall" => admission::stall(seed),
+        "drain" => admission::drain(seed),
+        "deadline" => admission::deadline(seed),
+        "keepalive" => keepalive::sweep(seed),
         "agones" => agones::histories(seed),
         "limits" => conn::limits(seed),
         "session" => conn::session(seed),
@@ -91,6 +95,7 @@ fn main() {
         "mojang" => mojang::request(seed),
         "mchash" => mojang::mchash(seed),
         "grpc" => grpc::round_trip(seed),
+        "grpc_wire" => grpc::request_wire(seed),
         "limiter_big" => limiter::big_limit(seed),
         "limiter" => limiter::sweep(seed),
         "cookie_unparseable" => conn::cookie_unparseable(seed),
